@@ -9,7 +9,7 @@ here="$(cd "$(dirname "$0")/../.." && pwd)"
 cd "$here"
 . ./env.sh
 case "$out" in /*) ;; *) out="$here/$out" ;; esac
-go build -o "$out" ./cmd/c19 &
+go build ${SEED_OVERLAY:+-overlay "$SEED_OVERLAY"} -o "$out" ./cmd/c19 &   # SEED_OVERLAY: trial builds against a changed copy of /repo (tools/seedcheck.py)
 p1=$!
 cmd/c19c/build.sh "${out}c"
 wait $p1
